@@ -282,6 +282,8 @@ impl<A, C: Clock, F: Filter, R, S> Port<'_, Running, A, R, C, F, S> {
                 log::error!(
                     "Responses from multiple devices to peer delay request, disabling port!"
                 );
+                // this exchange was answered twice, it must not complete (and recover the port)
+                self.peer_delay_state = PeerDelayState::Empty;
                 self.set_forced_port_state(PortState::Faulty);
                 actions![]
             }
@@ -345,6 +347,8 @@ impl<A, C: Clock, F: Filter, R, S> Port<'_, Running, A, R, C, F, S> {
                 log::error!(
                     "Responses from multiple devices to peer delay request, disabling port!"
                 );
+                // this exchange was answered twice, it must not complete (and recover the port)
+                self.peer_delay_state = PeerDelayState::Empty;
                 self.set_forced_port_state(PortState::Faulty);
                 actions![]
             }
